@@ -11,7 +11,7 @@ import (
 
 type c14Query struct {
 	name string
-	kind int // 0 int, 1 float, 2 bool, 3 string, 4 named int
+	kind int // 0 int, 1 float, 2 bool, 3 string, 4 named int, 5 named bool, 6 named float
 }
 
 func c14QueryType(pkg *types.Package, kind int) an.Type {
@@ -25,14 +25,20 @@ func c14QueryType(pkg *types.Package, kind int) an.Type {
 	case 3:
 		return an.String
 	}
+	switch kind {
+	case 5:
+		return an.VfNewNamed(skelNamed(pkg, "Flag", types.Typ[types.Bool]), an.Bool)
+	case 6:
+		return an.VfNewNamed(skelNamed(pkg, "Ratio", types.Typ[types.Float64]), an.Float)
+	}
 	return an.VfNewNamed(skelNamed(pkg, "IdItem", types.Typ[types.Int64]), &an.Basic{B: types.Typ[types.Int64]})
 }
 
 func c14Conv(q c14Query) string {
 	switch q.kind {
-	case 0, 1, 4:
+	case 0, 1, 4, 6:
 		return fmt.Sprintf("%q: String(params[%q])", q.name, q.name)
-	case 2:
+	case 2, 5:
 		return fmt.Sprintf("%q: params[%q] ? 'ok' : ''", q.name, q.name)
 	}
 	return fmt.Sprintf("%q: params[%q]", q.name, q.name)
@@ -78,14 +84,26 @@ func c14Endpoint(pkg *types.Package, tag string) (httpapi.Endpoint, []c14Query, 
 			a.Contract.InputForm.ValueNames = append(a.Contract.InputForm.ValueNames, v)
 		}
 		if vfChoice(tag+"json", 2) == 1 {
-			a.Contract.InputForm.JSON = httpapi.TypedParam{Name: "j" + c14Name(narrow, tag+"jsonName"), Type: body}
+			// the JSON field may be a struct, a string, a named string or an integer: always sent as JSON text
+			var jt an.Type = body
+			if !narrow {
+				switch vfChoice(tag+"jsonType", 4) {
+				case 1:
+					jt = an.String
+				case 2:
+					jt = an.VfNewNamed(skelNamed(pkg, "Label", types.Typ[types.String]), an.String)
+				case 3:
+					jt = an.Int
+				}
+			}
+			a.Contract.InputForm.JSON = httpapi.TypedParam{Name: "j" + c14Name(narrow, tag+"jsonName"), Type: jt}
 		}
 		vfAssume(!a.Contract.InputForm.IsZero())
 	}
 	var qs []c14Query
 	nq := vfChoice(tag+"queries", vfParam("C14.queries", 1)+1)
 	for i := 0; i < nq; i++ {
-		q := c14Query{name: fmt.Sprint("q", i) + c14Name(narrow, fmt.Sprint(tag, "query", i)), kind: vfChoice(fmt.Sprint(tag, "qkind", i), 5)}
+		q := c14Query{name: fmt.Sprint("q", i) + c14Name(narrow, fmt.Sprint(tag, "query", i)), kind: vfChoice(fmt.Sprint(tag, "qkind", i), 7)}
 		if narrow {
 			vfAssume(q.kind == 0 || q.kind == 3 || q.kind == 4)
 		}
